@@ -7,14 +7,17 @@ Extends `infix_roundtrip_left_partial` (C16Left.lean) by POSTFIX levels (arity 1
 parentheses.
 
 PROVED HERE (`infix_roundtrip_general_partial`), for ALL tables in `ClassG` (operand `Word(cs)`; `lpar`/`rpar` each
-suppressed or kept; each level a LEFT- or RIGHT-associative binary, a prefix or a postfix operator without parse action;
+suppressed or kept; each level a LEFT- or RIGHT-associative binary, a prefix, a postfix or a RIGHT-associative ternary operator without parse action;
 spellings non-empty, not starting with a blank/operand character, pairwise prefix-incomparable; any number of levels,
 any order) and ALL trees of ALL sizes in the table's normal form `WFG`: `parse_string(render t e ++ blanks,
 parse_all=True)` of the model parser on `infixGrammar t` returns exactly `[nest t e]`; a postfix chain `a op op` is ONE
 flat group `[a, op, op]` (`p_nest`), a kept parenthesis gives the group `[lpar?, inner, rpar?]`.
 `ClassTL ⊆ ClassG`, `WFL ⊆ WFG`, so the statement subsumes `infix_roundtrip_left_partial` and `infix_roundtrip_partial`.
 
-STILL MISSING (oracle/correspondence only): ternary levels, level parse actions, overlapping spellings, ill-formed
+RIGHT-associative TERNARY levels (`a op1 b op2 c`, one group of five) are in the class as well (`goal_ternR`; the second
+operator non-empty, not starting with a blank/operand character, prefix-incomparable with every first operator).
+
+STILL MISSING (oracle/correspondence only): LEFT-associative ternary levels, level parse actions, overlapping spellings, ill-formed
 strings, packrat.
 -/
 namespace PP.Infix.Gen
@@ -40,7 +43,11 @@ theorem lvl_le_of_WFG {t : Table} {cs : List Char} : ∀ e, WFG t cs e → e.lvl
     obtain ⟨lv, hk, hlv, _⟩ := h
     have := (List.getElem?_eq_some_iff.mp hlv).1
     simp only [Ex.lvl]; omega
-  | tern k a w1 b w2 c => intro h; exact absurd h id
+  | tern k a w1 b w2 c =>
+    intro h
+    obtain ⟨lv, hk, hlv, _⟩ := h
+    have := (List.getElem?_eq_some_iff.mp hlv).1
+    simp only [Ex.lvl]; omega
 
 /-- a tree of a tighter level is a one-element chain of level `k` -/
 theorem chain_of_low {t : Table} {cs s : List Char} {e : Ex} {k : Nat} (hwf : WFG t cs e)
@@ -232,20 +239,36 @@ theorem goal_all : ∀ e, WFG t cs e →
         · exact chain_of_low hwf p1 (by simp only [Ex.lvl]; omega) (by omega)
       · have hne : k ≠ k2 := by rintro rfl; rw [hlv] at hlv2; cases hlv2; omega
         exact post_of_low hwf p1 (by simp only [Ex.lvl]; omega) (by omega)
-  | tern k a w1 b w2 c iha ihb ihc => intro h; exact absurd h id
+  | tern k a w1 b w2 c iha ihb ihc =>
+    intro hwf
+    obtain ⟨lv, hk, hlv, har, hrt, _, _, hwa, hwb, hwc, hla, hlb, hlc⟩ := id hwf
+    have hkn := (List.getElem?_eq_some_iff.mp hlv).1
+    have p1 : ∀ d, (Ex.tern k a w1 b w2 c).lvl + d ≤ t.levels.length →
+        GoalG t cs s (.tern k a w1 b w2 c) ((Ex.tern k a w1 b w2 c).lvl + d) := by
+      apply lift_all hT s hwf
+      have h1 := (iha hwa).1 (k - 1 - a.lvl) (by omega)
+      have h2 := (ihb hwb).1 (k - b.lvl) (by omega)
+      have h3 := (ihc hwc).1 (k - c.lvl) (by omega)
+      exact goal_ternR hT s hwf (by simpa [show a.lvl + (k - 1 - a.lvl) = k - 1 by omega] using h1)
+        (by simpa [Nat.add_sub_cancel' hlb] using h2) (by simpa [Nat.add_sub_cancel' hlc] using h3)
+    refine ⟨p1, fun k2 lv2 hk2 hlv2 ha2 hr2 hle2 => ?_, fun k2 lv2 hk2 hlv2 ha2 hr2 hle2 => ?_⟩ <;>
+      have := (List.getElem?_eq_some_iff.mp hlv2).1 <;> simp only [Ex.lvl] at hle2 <;>
+      have hne : k ≠ k2 := (by rintro rfl; rw [hlv] at hlv2; cases hlv2; omega)
+    · exact chain_of_low hwf p1 (by simp only [Ex.lvl]; omega) (by omega)
+    · exact post_of_low hwf p1 (by simp only [Ex.lvl]; omega) (by omega)
 
 end main2
 
 
 
-/-- **infix_roundtrip (partial: LEFT/RIGHT-associative binary, prefix and POSTFIX levels, any number of them, in any
+/-- **infix_roundtrip (partial: LEFT/RIGHT-associative binary, prefix, POSTFIX and RIGHT-associative TERNARY levels, any number of them, in any
     order; parentheses suppressed or kept).**
     For every table in class G and every tree in its normal form, of any size, written with any blanks before its
     tokens and any trailing blanks: `parse_string(.., parse_all=True)` of the model parser on `infixGrammar t` returns
     exactly the documented nesting `[nest t e]` — left-associative and postfix chains as ONE flat group each, a kept
     parenthesis as a group holding its token(s) and the inner result — for every fuel from some point on.
 
-    FULL STATEMENT (properties.jsonl) additionally covers ternary levels, level parse actions and overlapping
+    FULL STATEMENT (properties.jsonl) additionally covers LEFT-associative ternary levels, level parse actions and overlapping
     spellings; those stay with the oracle/correspondence legs. -/
 theorem _root_.PP.Infix.infix_roundtrip_general_partial {t : Table} {cs : List Char} {re : Bool} (hT : ClassG t cs re)
     (e : Ex) (hwf : WFG t cs e) (trail : List Char) (htr : White t.white trail) :
@@ -371,6 +394,8 @@ theorem exTableG_class : ClassG exTableG ['0', '1', '2', '3'] true where
   opOk := by decide
   opsInc := exTableG_ops
   parInc := by decide
+  op2Ok := by decide
+  op2Inc := by decide
 
 theorem exTableG'_class : ClassG exTableG' ['0', '1', '2', '3'] true where
   base := rfl
@@ -381,6 +406,8 @@ theorem exTableG'_class : ClassG exTableG' ['0', '1', '2', '3'] true where
   opOk := by decide
   opsInc := exTableG_ops
   parInc := by decide
+  op2Ok := by decide
+  op2Inc := by decide
 
 theorem exTreeG_wf : WFG exTableG ['0', '1', '2', '3'] exTreeG := by
   simp [exTreeG, WFG, exTableG, White, Ex.lvl]
@@ -406,6 +433,58 @@ example : showTok (nest exTableG exTreeG) = "[[[1 ! ! ] * [- [2 ! ! ] ] * [[( [3
   decide +kernel
 
 example : showTok (nest exTableG' exTreeG) = "[[[1 ! ! ] * [- [2 ! ! ] ] * [[[3 ^^ 1 ] ) ] ! ] ] ^^ 0 ]".toList := by
+  decide +kernel
+
+/-! ### non-vacuity with a RIGHT-associative ternary level (`?` `:` loosest, above LEFT-associative `+`) -/
+
+def exTableH : Table :=
+  { white := [' ', '\t', '\n', '\r'],
+    base := mkNode [' ', '\t', '\n', '\r'] (.word ['0', '1', '2', '3'] ['0', '1', '2', '3'] 1 none false false true) false true,
+    lpar := ['('], rpar := [')'],
+    levels := [{ arity := 1, right := false, op1 := ['!'] }, { arity := 2, right := false, op1 := ['+'] },
+               { arity := 3, right := true, op1 := ['?'], op2 := [':'] }] }
+
+/-- `1+2 ? 3 ? 0! : 1 :(2?3:0) + 1` -/
+def exTreeH : Ex :=
+  .tern 3 (.bin 2 (.atom [] ['1']) [] (.atom [] ['2'])) [' ']
+    (.tern 3 (.atom [' '] ['3']) [' '] (.post 1 (.atom [' '] ['0']) []) [' '] (.atom [' '] ['1'])) [' ']
+    (.bin 2 (.paren [] (.tern 3 (.atom [] ['2']) [] (.atom [] ['3']) [] (.atom [] ['0'])) []) [' '] (.atom [' '] ['1']))
+
+theorem exTableH_class : ClassG exTableH ['0', '1', '2', '3'] true where
+  base := rfl
+  csW := by decide
+  kinds := by decide
+  lparOk := by decide
+  rparOk := by decide
+  opOk := by decide
+  opsInc := by
+    intro i j lvi lvj hi hj hij
+    have hi3 : i < 3 := (List.getElem?_eq_some_iff.mp hi).1
+    have hj3 : j < 3 := (List.getElem?_eq_some_iff.mp hj).1
+    match i, j, hi3, hj3 with
+    | 0, 0, _, _ => exact absurd rfl hij
+    | 1, 1, _, _ => exact absurd rfl hij
+    | 2, 2, _, _ => exact absurd rfl hij
+    | 0, 1, _, _ | 0, 2, _, _ | 1, 0, _, _ | 1, 2, _, _ | 2, 0, _, _ | 2, 1, _, _ =>
+      simp [exTableH] at hi hj; subst hi; subst hj; decide
+  parInc := by decide
+  op2Ok := by decide
+  op2Inc := by decide
+
+theorem exTreeH_wf : WFG exTableH ['0', '1', '2', '3'] exTreeH := by
+  simp [exTreeH, WFG, exTableH, White, Ex.lvl]
+
+example := infix_roundtrip_general_partial exTableH_class exTreeH exTreeH_wf [' '] (by simp [White, exTableH])
+
+example : render exTableH exTreeH = "1+2 ? 3 ? 0! : 1 :(2?3:0) + 1".toList := by decide
+
+example : (match parseString (parseX (fbIds exTableH) (infixGrammar exTableH) (render exTableH exTreeH) 80)
+      (infixGrammar exTableH) rootId exTableH.white (render exTableH exTreeH) true with
+    | .ok e ts => some (e, showToks ts)
+    | _ => none) = some (29, "[[1 + 2 ] ? [3 ? [0 ! ] : 1 ] : [[2 ? 3 : 0 ] + 1 ] ] ".toList) := by
+  decide +kernel
+
+example : showTok (nest exTableH exTreeH) = "[[1 + 2 ] ? [3 ? [0 ! ] : 1 ] : [[2 ? 3 : 0 ] + 1 ] ]".toList := by
   decide +kernel
 
 end PP.Infix.Gen
